@@ -6,23 +6,23 @@ from common import *
 EVAL_SOURCES = lambda: [VERIF + '/wrap/eval.cpp', REPO + '/src/core/bspline.cpp']
 _cache = {}
 
-def eval_ir(defines=()):
-    key = ('ir',) + tuple(defines)
-    if key not in _cache:
-        _cache[key] = build_ir('eval' + ''.join('_' + d for d in defines), EVAL_SOURCES(), defines=defines)
-    return _cache[key]
+def eval_ir(defines=(), cinter=False):
+    key = ('ir', cinter) + tuple(defines)
+    def build():
+        return build_ir('eval' + ('c' if cinter else '') + ''.join('_' + d[:12] for d in defines), EVAL_SOURCES() + ([REPO + '/src/cinter/splinetable.cpp'] if cinter else []), defines=defines)
+    return once(key, build)
 
 def layout_header():
-    d = scratch()
-    if 'layout' not in _cache:
+    def build():
+        d = scratch()
         run(['g++'] + GXX_FLAGS + [VERIF + '/tools/gen_layout.cpp', '-o', d + '/gen_layout'])
         open(d + '/ps_layout.h', 'w').write(run([d + '/gen_layout'])['out'])
-        _cache['layout'] = d + '/ps_layout.h'
-    return _cache['layout']
+        return d + '/ps_layout.h'
+    return once('layout', build)
 
-def eval_c(roots, tag, defines=(), extra=('--nsw-signed',), cut=(), alias=()):
+def eval_c(roots, tag, defines=(), extra=('--nsw-signed',), cut=(), alias=(), cinter=False):
     d = scratch(); out = os.path.join(d, 'eval_%s.c' % tag)
-    m = ir2c(eval_ir(defines), out, roots, cut=cut, alias=alias, extra=extra)
+    m = ir2c(eval_ir(defines, cinter), out, roots, cut=cut, alias=alias, extra=extra)
     return out, m
 
 MODEL_SRCS = [VERIF + '/rt/rt_common.c', VERIF + '/models/stdcxx.c', VERIF + '/models/alloc_plain.c']
